@@ -61,7 +61,7 @@ func ExecC14(c Case) *ev.Result {
 		w.step = len(c.Ops) + 1
 		if err := w.GC(); err != nil {
 			r.Failf("final collector pass failed: %v", err)
-		} else if d := w.WaitDisk(1500*time.Millisecond, 40*time.Second); d != "" {
+		} else if d := w.WaitDisk(3*time.Second, 60*time.Second); d != "" {
 			r.Failf("after quiescence (variant %d) the roots do not hold exactly the live contents: %s", c.Variant, d)
 		} else {
 			w.ReadBackAuto("final read-back")
